@@ -25,6 +25,7 @@ pub enum PayloadEvent {
     DeadDuringView { id: u64, serial: u32 },
     CorruptDelivered { id: u64, not_id: u64, serial: u32 },
     DeadDelivered { id: u64, serial: u32 },
+    ChangedDuringDrop { before: u64, after: u64 },
 }
 
 impl PayloadEvent {
@@ -42,6 +43,7 @@ impl PayloadEvent {
             PayloadEvent::DeadDuringView { .. } => "DeadDuringView",
             PayloadEvent::CorruptDelivered { .. } => "CorruptDelivered",
             PayloadEvent::DeadDelivered { .. } => "DeadDelivered",
+            PayloadEvent::ChangedDuringDrop { .. } => "ChangedDuringDrop",
         }
     }
 }
@@ -330,8 +332,21 @@ impl Clone for Tracked {
 impl Drop for Tracked {
     fn drop(&mut self) {
         let _nc = crate::mem::NoCount::new();
+        let r0 = self.raw();
+        // A destructor run by the crate is user code during which the other threads run: the
+        // memory of the value must stay untouched until it returns.
+        if !std::thread::panicking() && sched().in_call() {
+            sched().harness_point(ADDR_PAYLOAD);
+        }
         let r = self.raw();
         let mut l = ledger();
+        if r != r0 && r0.exec == l.exec {
+            l.push_event(PayloadEvent::ChangedDuringDrop {
+                before: r0.id,
+                after: r.id,
+            });
+        }
+        let r = r0;
         if r.exec != l.exec {
             // instance of an earlier (torn down) execution: ignore
             return;
